@@ -86,6 +86,14 @@ EXPLANATION = ("Tie to the code, two ways.  (1) Source-translation links: select
                "Compared exactly per case: (plate id, row positions, sample ids, treatment ids) handed to the scorer per chunk, every "
                "holder's size/slots/current_index after save+load, the combined holder, the selected id; exceptions <-> Err. "
                "Modelled, not verified: numpy/h5py storage, logging, argparse; the DBAL scorer (C05) and KPerSamplePlatePolicy (C16).")
+# ---- source-translation links of the command-line wrappers (Model/Cli.v, Generated/SrcCli.v) ----
+THEOREMS.update({
+    'C06_model_is_source_cli_select_next_plate': "the translation of the whole function select_next_plate.main regenerated on this run equals, for every record L of library functions and all parsed arguments, Cli.cli_select_next_plate: select_next_plate on the loaded screen, the concatenation of the --scores files in argument order, the --batch-plate-id list, the policy object (None without --policy) and the generator from --seed; the output file gets the chosen plate's id, or -1 exactly when the library function returned None",
+    'C06_model_is_source_cli_calculate_scores': 'the translation of the whole function calculate_scores.main regenerated on this run equals, for every record L of library functions and all parsed arguments, Cli.cli_calculate_scores (score_chunk on the loaded screen / concatenated thetas / concatenated distance matrix with rng from --seed, the chunk arguments and the --batch-plate-ids list; result saved)',
+    'C06_model_is_source_cli_select_next_plate_scores': 'instance over Model/Scores.v with the library calls standing for the TRANSLATED select_next_plate and ChunkedScoresHolder.concat: the translated main = select_next on h_concat of the loaded score files; writes the id select_next answers, -1 exactly for None',
+    'C06_model_is_source_cli_calculate_scores_scores': "instance over Model/Scores.v with the library call standing for the TRANSLATED score_chunk: the translated main = the model's score_chunk on the loaded screen and the --batch-plate-ids list, the scorer's answer (on the concatenated thetas / distance matrix and the seeded generator) stored by chunk_holder_of_answer, saved",
+})
+EXPLANATION += ("  (3) The CLI wrappers select_next_plate.main and calculate_scores.main are re-translated as WHOLE functions on every run (Generated/SrcCli.v) and proved equal to Model/Cli.v; two instances compose them with the translated library functions over Model/Scores.v.  These links trust the translator harness/py2gal.py (for these links extended by cfg typed_effects, kwcalls keys `module.function`, state_calls assigned to a tuple), the representation of Model/Cli.v (parsed arguments = a record of the plain argparse results, get_args() not translated = the primitive `get_args()` yielding that record; a main() denotes the list of (path, content) files it writes; `L` = ANY record of library functions over abstract types) and EXACTLY these primitives of harness/src_functions.py, each one field read / one library or constructor call standing for the function of that name (whose own link, where it exists, is the one of its property): CLI_PRNG (get_prng_from_seed_argument, reads args.seed only): numpy.random.SeedSequence(s).generate_state(1)[0] = seedseq_word mix s (ValueError for s < 0, `mix` an arbitrary function of the seed), numpy.random.default_rng(w) = Gen w. CLI_SELECT_NEXT_PLATE: the fields of `args` read as the record's projections (a store to one is refused); ignored: log_config.configure_logging(args), logger.info/warning; Screen.load_h5(p), args.policy_cls(**args.policy_params), get_prng_from_seed_argument(args) (translated), ChunkedScoresHolder.load_h5(p) / .concat(l), p.plate_id, the keyword call select_next_plate(...) with its defaults (batch_plate_ids=None, rng=None), the context open(p, 'w') = the path, typed effect f.write(str(n)) with n an int = append (f, n) (the file holds the decimal text of n). CLI_CALCULATE_SCORES: the fields of `args` read as the record's projections (a store to one is refused); ignored: log_config.configure_logging(args), logger.info/warning; Screen.load_h5(p), args.scorer_cls(**args.scorer_params), ThetaHolder(n_thetas=1) (a handle), h.load_h5(p), h.concat(l), ChunkedDistanceMatrix.load(p) / .concat(l), sum(l), s.plates, p.is_observed, p.plate_id (the three only feed a log line), get_prng_from_seed_argument(args) = the TRANSLATED function on the record's seed, the keyword call score_chunk(...) with the defaults of its signature (rng=None, progress_bar=False, n_chunks=1, chunk_index=0, batch_plate_ids=None; WHICH keywords are passed is read from the source), typed effect r.save_h5(p) = append (p, r) to the written files. ")
 
 logging.getLogger("batchie").setLevel(logging.ERROR)  # "No eligible plates remaining" warnings are not part of the check
 
